@@ -134,7 +134,13 @@ pub fn oracle(case: &Case) -> Outcome {
 }
 
 fn odd_version() -> BoxedStrategy<u16> {
-    prop_oneof![Just(0u16), Just(1), Just(6), Just(8), Just(11), Just(255), Just(256), Just(0x0900), Just(0x0a00), any::<u16>()].boxed()
+    prop_oneof![
+        Just(0u16), Just(1), Just(6), Just(8), Just(11), Just(255), Just(256), Just(0x0900), Just(0x0a00),
+        // numbers that collide with a supported version in one byte
+        Just(0x0105), Just(0x0207), Just(0x0309), Just(0x010a), Just(0x0505), Just(0x0a0a), Just(0x8005), Just(0xff09),
+        any::<u16>()
+    ]
+    .boxed()
 }
 
 pub fn c12_case() -> BoxedStrategy<Case> {
